@@ -874,10 +874,17 @@ fn run_trace(out: &mut Out, inits: &[Init], evs: &[Ev], universe: Vec<Nm>, kind:
     }
 }
 
+/// an SOA serial for an update at the apex: mostly not the "next" one - the same few small
+/// serials again (so that a writer re-writes the published SOA, an older one, or one that
+/// is smaller as a number), and serials on both sides of the 2^32 wrap
+fn gen_soa(r: &mut Rng, val: u32) -> u32 {
+    match r.below(8) { 0 | 1 => val, 2..=4 => 1 + r.below(6) as u32, 5 => 0xFFFF_FFF0 + r.below(16) as u32, 6 => 0x8000_0000u32.wrapping_add(r.below(5) as u32).wrapping_sub(2), _ => 1 + r.below(3) as u32 }
+}
+
 fn gen_data(r: &mut Rng, n: Nm, val: u32) -> Ev {
     let types = [T_A, T_TXT, T_AAAA];
     match r.below(18) {
-        0..=6 => { let t = if n.0.is_empty() && r.chance(1, 3) { T_SOA } else { *r.pick(&types) }; Ev::Update(n, t, if r.chance(1, 12) { 0 } else { val }) }
+        0..=6 => { let t = if n.0.is_empty() && r.chance(1, 3) { T_SOA } else { *r.pick(&types) }; let v = if t == T_SOA { gen_soa(r, val) } else { val }; Ev::Update(n, t, if r.chance(1, 12) { 0 } else { v }) }
         7..=9 => { let t = if n.0.is_empty() && r.chance(1, 4) { T_SOA } else { *r.pick(&types) }; Ev::Remove(n, t) }
         10 => if n.0.is_empty() { Ev::RemoveAll } else { Ev::Touch(n) },
         11 => Ev::RemoveAll,
@@ -955,7 +962,7 @@ fn gen_trace(r: &mut Rng, names: &[Nm], targets: &[Nm], max_len: usize, stale: b
 fn gen_inits(r: &mut Rng, names: &[Nm], p_num: u64) -> Vec<Init> {
     let mut v = vec![];
     let mut val = 10u32;
-    if r.chance(3, 4) { v.push(Init::Rrset(Nm(vec![]), T_SOA, 1 + r.below(5) as u32)); }
+    if r.chance(3, 4) { v.push(Init::Rrset(Nm(vec![]), T_SOA, if r.chance(1, 6) { 0xFFFF_FFF0 + r.below(16) as u32 } else { 1 + r.below(5) as u32 })); }
     for n in names {
         for t in [T_A, T_TXT, T_AAAA] {
             if r.chance(p_num, 10) { val += 1; v.push(Init::Rrset(n.clone(), t, val)); }
@@ -1238,6 +1245,11 @@ fn main() {
             (vec![soa.clone(), www.clone()], vec![Ev::WAcquire, Ev::WQueue, Ev::WOpen, Ev::Update(Nm::flat(2), T_A, 51), Ev::Commit, Ev::WAcquire, Ev::Acquire(0), Ev::WOpen, Ev::WAcquire, Ev::Update(Nm::flat(2), T_A, 52),
                 Ev::Query(0, Nm::flat(2), T_A), Ev::CommitBump, Ev::WAcquire, Ev::Acquire(1), Ev::Query(1, Nm::flat(2), T_A), Ev::Dump, Ev::Drop, Ev::WTake, Ev::WOpen, Ev::Update(Nm::flat(2), T_A, 53), Ev::Dump,
                 Ev::Query(1, Nm::flat(2), T_A), Ev::Commit, Ev::Acquire(2), Ev::Query(2, Nm::flat(2), T_A), Ev::Query(2, Nm::flat(0), T_SOA), Ev::Dump]),
+            // commit(true) keeps whatever SOA the writer stored unless it is the published one: a serial
+            // that is smaller as a number (across the 2^32 wrap, or simply older), and the same SOA again
+            (vec![Init::Rrset(Nm(vec![]), T_SOA, 0xFFFF_FFF0), www.clone()], vec![Ev::Acquire(0), Ev::WAcquire, Ev::WOpen, Ev::Update(Nm::flat(0), T_SOA, 5), Ev::CommitBump, Ev::Acquire(1), Ev::Query(1, Nm::flat(0), T_SOA),
+                Ev::WOpen, Ev::Update(Nm::flat(0), T_SOA, 3), Ev::CommitBump, Ev::Acquire(2), Ev::Query(2, Nm::flat(0), T_SOA), Ev::WOpen, Ev::Update(Nm::flat(0), T_SOA, 3), Ev::CommitBump, Ev::Acquire(3), Ev::Query(3, Nm::flat(0), T_SOA),
+                Ev::WOpen, Ev::Update(Nm::flat(0), T_SOA, 0x8000_0003), Ev::CommitBump, Ev::Release(0), Ev::Acquire(0), Ev::Query(0, Nm::flat(0), T_SOA), Ev::Query(1, Nm::flat(3), T_A), Ev::Walk(0), Ev::Walk(2)]),
             // ANY
             (vec![soa.clone(), www.clone(), Init::Rrset(Nm::flat(2), T_TXT, 12)], vec![Ev::Acquire(0), Ev::Query(0, Nm::flat(2), T_ANY), Ev::Query(0, Nm::flat(3), T_ANY), Ev::Query(0, Nm::flat(0), T_ANY),
                 Ev::WAcquire, Ev::WOpen, Ev::Remove(Nm::flat(2), T_A), Ev::Remove(Nm::flat(2), T_TXT), Ev::Update(Nm::flat(3), T_AAAA, 13), Ev::Query(0, Nm::flat(2), T_ANY), Ev::Commit, Ev::Acquire(1),
